@@ -45,6 +45,9 @@ CHECKS = {
  "C14": ("model_checking", "Bounded-exhaustive enumeration of token sets (all ordered pairs of 39 menu variants, all ordered triples of 13 plain items, in a token-soup grammar and a two-context grammar, plus keyword grammars; extras none/space) crossed with every input string up to the length bound; the leaf sequence of the real generated lexer/parser is compared with a reference tokenizer built on the independent `regex` crate that applies the five documented disambiguation rules.",
          "The documented rule list is the specification. Quick tier takes an evenly spread subset of each family (reported as a cap in bounds).",
          "bounded-exhaustive enumeration of (token set, input) with a regex-based reference tokenizer", "DESIGN.md §2 C14"),
+ "C05": ("model_checking", "Bounded-exhaustive enumeration of a query family generated from a pattern AST (roots: named kinds, wildcards, anonymous, ERROR, MISSING variants, supertype, supertype/subtype; 0-2 children with fields, negated fields, anchors in every slot, alternation, quantifiers, captures on every node) for three languages, crossed with every tree of a bounded document family (valid, erroneous, edited-and-reparsed); the real cursor's matches are compared with an independent backtracking matcher written from the query documentation: soundness for all queries, exact completeness for quantifier-free ones, plus compile-time acceptance.",
+         "Wildcards do not match ERROR nodes (reconciled with the implementation; the documentation is silent). Anchors next to anonymous/wildcard/quantified children and supertype patterns with children are outside the asserted family. Two known findings about over-eager rejection.",
+         "bounded-exhaustive enumeration of (query, tree) with a reference backtracking matcher", "DESIGN.md §2 C05"),
 }
 REASON_WIP = "check not built yet (work in progress; see DESIGN.md build order)"
 def main():
